@@ -1,12 +1,97 @@
 import GridVerif.Model.Proto
 import GridVerif.Model.Elem
+import GridVerif.Model.RTransform
+import GridVerif.Gen.RTransform
 
+/-
+  Driver ops of property C03: the generated definitions of `Gen/RTransform.lean` at `K = Float`.
+
+    C03.eval    <Class> <method> <trim 0|1> <size> <n> p₁ … pₙ <x>   method of the class (8 names)
+    C03.evalinv <Class> <method> <trim 0|1> <size> <n> p₁ … pₙ <x>   same method of InverseRTransform(<Class>(…))
+    C03.scalar  <Class> <method> <trim 0|1> <n> p₁ … pₙ <x>          `isinstance(x, Number)` branch
+    C03.admissible <Class> <trim 0|1> <n> p₁ … pₙ                   constructor guards
+    C03.convinf array|scalar <x>                                     `_convert_inf` with the default replacement
+    C03.convinf2 array|scalar <x> <replace_inf>
+
+  `size` is the number of elements of the array argument (only `HyperbolicRTransform` looks at it).
+  Answers: `ok <float>` | `ok 0|1` | `value-error` | `zero-division-error`.
+-/
 namespace GridVerif.Driver.C03
-open GridVerif.Proto
+open GridVerif.Proto GridVerif.Gen.RTransform
 
-/-- Line-protocol handler of property C03: `C03.<op> args…` ↦ one answer line
-(`none` = malformed, answered `bad-op`). -/
+def pBool : String → Option Bool
+  | "0" => some false
+  | "1" => some true
+  | _ => none
+
+def primary : List String := ["transform", "inverse", "deriv", "deriv2", "deriv3"]
+
+/-- The error the class's own method bodies raise when `meth` is called (in call order). -/
+def classRaise (cls meth : String) (ps : List Float) (trim : Bool) (size x : Float) : Option String :=
+  let called := if primary.contains meth then [meth] else primary.filter (· ≠ "transform")
+  match called.find? (fun m => raisesOf cls m ps trim size x == some true) with
+  | some m => raisesKindOf cls m
+  | none => none
+
+def answer (v : Option Float) : Option String := v.map fun y => "ok " ++ sFloat y
+
 def handle : List String → Option String
+  | "C03.eval" :: cls :: meth :: trim :: size :: rest => do
+    let trim ← pBool trim
+    let size ← pNat size
+    let (ps, tl) ← pVec pFloat rest
+    let [x] := tl | none
+    let x ← pFloat x
+    let f ← opsOf cls ps trim
+    match classRaise cls meth ps trim (Float.ofNat size) x with
+    | some tag => pure tag
+    | none =>
+      if raisesOps f meth x == some true then raisesKindOf "BaseTransform" meth
+      else answer (evalOps f meth x)
+  | "C03.evalinv" :: cls :: meth :: trim :: size :: rest => do
+    let trim ← pBool trim
+    let size ← pNat size
+    let (ps, tl) ← pVec pFloat rest
+    let [x] := tl | none
+    let x ← pFloat x
+    let f ← opsOf cls ps trim
+    let g := wrapInverseRTransform f
+    match classRaise cls "deriv_inverse" ps trim (Float.ofNat size) x with
+    | some tag => pure tag
+    | none =>
+      -- the wrapper's own methods raise when the wrapped first derivative vanishes; the inherited
+      -- `deriv*_inverse` of the wrapper call them at `g.inverse x`
+      let own := if primary.contains meth then raisesInverseRTransform f meth x
+                 else raisesInverseRTransform f "deriv" (g.inverse x)
+      if own == some true then raisesKindOf "InverseRTransform" "deriv"
+      else if raisesOps g meth x == some true then raisesKindOf "BaseTransform" meth
+      else answer (evalOps g meth x)
+  | "C03.scalar" :: cls :: meth :: trim :: rest => do
+    let trim ← pBool trim
+    let (ps, tl) ← pVec pFloat rest
+    let [x] := tl | none
+    let x ← pFloat x
+    answer (scalarOf cls meth ps trim x)
+  | "C03.admissible" :: cls :: trim :: rest => do
+    let trim ← pBool trim
+    let (ps, tl) ← pVec pFloat rest
+    if tl ≠ [] then none else
+    let b ← admissibleOf cls ps trim
+    pure (if b then "ok 1" else "ok 0")
+  | ["C03.convinf", "array", x] => do
+    let x ← pFloat x
+    pure ("ok " ++ sFloat (BaseTransform.convert_inf x))
+  | ["C03.convinf", "scalar", x] => do
+    let x ← pFloat x
+    pure ("ok " ++ sFloat (BaseTransform.convert_inf_scalar x))
+  | ["C03.convinf2", "array", x, r] => do
+    let x ← pFloat x
+    let r ← pFloat r
+    pure ("ok " ++ sFloat (BaseTransform.convert_inf x r))
+  | ["C03.convinf2", "scalar", x, r] => do
+    let x ← pFloat x
+    let r ← pFloat r
+    pure ("ok " ++ sFloat (BaseTransform.convert_inf_scalar x r))
   | _ => none
 
 end GridVerif.Driver.C03
